@@ -99,6 +99,9 @@ func otherEntryPoints(t *core.T, sig, src string, want *xast.Policy) {
 	}
 	var used cedar.Policy
 	_ = used.UnmarshalCedar(usedText)
+	_ = used.MarshalCedar() // every accessor has been called on the receiver before it is reused
+	_, _ = used.MarshalJSON()
+	_ = used.AST()
 	err := used.UnmarshalCedar([]byte(src))
 	same("Policy.UnmarshalCedar(used receiver)", (*xast.Policy)(used.AST()), err)
 	var ap pa.Policy
